@@ -327,7 +327,8 @@ pub fn construct_sweep(rng: &mut Rng) -> Vec<Prog> {
         2 => format!("{{p: {}, q: {}}}", a, b),
         3 => format!("({}, {}, 1)", a, b),
         // hexadecimal / binary spellings are i64 literals
-        _ => if ek == "i64" { "{0x1F, 0b101, 7<i64>}".to_string() } else { format!("{{{}}}", a) },
+        // (no annotated literal here: bytecode of a kind conversion does not run - KF-C06-01 - and would hide the container)
+        _ => if ek == "i64" { "{0x1F, 0b101, 0x07}".to_string() } else if ek == "u8" { "|a<i64> b<bool>| 0x1F true | 0x02 false |".to_string() } else if ek == "u16" { "{p: 0x1F, q: 0b11}".to_string() } else if ek == "u32" { "(0x1F, 0b11, true)".to_string() } else { format!("{{{}}}", a) },
       };
       let mut g = Gen::new(rng);
       g.prog.restricted = false;
@@ -338,7 +339,7 @@ pub fn construct_sweep(rng: &mut Rng) -> Vec<Prog> {
       g2.prog.restricted = false;
       g2.prog.tags.insert(format!("container-bare-{}-{}", ["set", "table", "record", "tuple", "set1"][form], ek));
       // (a bare tuple / record literal adds no plan step: the recorded finding about final bare literals)
-      if form == 2 || form == 3 { g2.prog.tags.insert("final-literal".to_string()); }
+      if form == 2 || form == 3 || (form == 4 && matches!(ek, "u8" | "u16" | "u32")) { g2.prog.tags.insert("final-literal".to_string()); }
       g2.prog.stmts.push(text);
       out.push(g2.prog);
     }
